@@ -151,8 +151,11 @@ type readSpec struct {
 	MdCb   bool   `json:"mdcb"`
 }
 
-// doRead performs one read with the real reader and renders it.
-func doRead(d *fileDesc, rs readSpec) wl.Ev {
+// doRead performs one read with a fresh Reader and renders it.
+func doRead(d *fileDesc, rs readSpec) wl.Ev { return doReadOn(d, rs, nil) }
+
+// doReadOn performs one read on the given Reader (nil: a fresh one, closed afterwards) and renders it.
+func doReadOn(d *fileDesc, rs readSpec, shared *mcap.Reader) wl.Ev {
 	e := wl.Ev{"ev": "Read", "mdcb": rs.MdCb, "mode": rs.Mode, "order": rs.Order, "hasT": rs.HasT, "form": rs.Form, "hasS": rs.S != nil, "hasE": rs.E != nil}
 	ts := make([]any, 0, len(rs.Topics))
 	for _, t := range rs.Topics {
@@ -181,12 +184,16 @@ func doRead(d *fileDesc, rs readSpec) wl.Ev {
 				end, why = "panic", fmt.Sprint(p)
 			}
 		}()
-		reader, err := mcap.NewReader(bytes.NewReader(d.bytes))
-		if err != nil {
-			end, why = "openerror", err.Error()
-			return
+		reader := shared
+		if reader == nil {
+			var err error
+			reader, err = mcap.NewReader(bytes.NewReader(d.bytes))
+			if err != nil {
+				end, why = "openerror", err.Error()
+				return
+			}
+			defer reader.Close()
 		}
-		defer reader.Close()
 		io_ := run.IterOpts{Order: rs.Order, Topics: rs.Topics, HasTopics: rs.HasT, Start: rs.S, End: rs.E, Form: rs.Form, MdCallback: rs.MdCb}
 		switch rs.Mode {
 		case "index":
@@ -261,19 +268,67 @@ func exactTriple(d *fileDesc, mid int, s *mcap.Schema, c *mcap.Channel, m *mcap.
 }
 
 // infoEvent calls Reader.Info and fetches every indexed attachment and metadata record.
-func infoEvent(d *fileDesc) (e wl.Ev) {
+func infoEvent(d *fileDesc) (e wl.Ev) { return infoEventOn(d, nil) }
+
+// sessionEvents performs a sequence of complete operations on ONE Reader (the sessions are exported by TLC from
+// ReaderSession.tla): Info (without fetching records, so that the stream stays on a record boundary) and drained reads.
+// Every event carries its position in the session; "moved" says that the Reader was used before.
+func sessionEvents(d *fileDesc, ops []string, r *rand.Rand, sid int) []wl.Ev {
+	var out []wl.Ev
+	reader, err := mcap.NewReader(bytes.NewReader(d.bytes))
+	if err != nil {
+		return nil
+	}
+	defer reader.Close()
+	var filt *readSpec
+	if fs := readSpecs(r, d, 1, false); len(fs) > 5 {
+		filt = &fs[5]
+	}
+	for k, op := range ops {
+		var e wl.Ev
+		switch op {
+		case "info":
+			e = infoEventOn(d, reader)
+		case "default":
+			rs := readSpec{Mode: "default"}
+			if filt != nil && (sid+k)%2 == 0 { // every second one with the session's topic set / window
+				rs.Topics, rs.HasT, rs.S, rs.E, rs.Form = filt.Topics, filt.HasT, filt.S, filt.E, filt.Form
+			}
+			e = doReadOn(d, rs, reader)
+		case "idxfile":
+			e = doReadOn(d, readSpec{Mode: "index", Order: "file"}, reader)
+		case "idxlog":
+			e = doReadOn(d, readSpec{Mode: "index", Order: []string{"log", "rlog"}[(sid+k)%2]}, reader)
+		case "scan":
+			e = doReadOn(d, readSpec{Mode: "scan"}, reader)
+		default:
+			continue
+		}
+		e["sess"] = k + 1
+		e["moved"] = k > 0
+		e["sid"] = sid
+		out = append(out, e)
+	}
+	return out
+}
+
+func infoEventOn(d *fileDesc, shared *mcap.Reader) (e wl.Ev) {
 	e = wl.Ev{"ev": "Info", "ret": "ok", "nChannels": 0, "nSchemas": 0, "nChunkIdx": 0, "nAttIdx": 0, "nMdIdx": 0, "attOK": 0, "mdOK": 0, "hasStats": false, "msgs": 0, "why": ""}
 	defer func() {
 		if p := recover(); p != nil {
 			e["ret"], e["why"] = "panic", fmt.Sprint(p)
 		}
 	}()
-	reader, err := mcap.NewReader(bytes.NewReader(d.bytes))
-	if err != nil {
-		e["ret"], e["why"] = "error", err.Error()
-		return e
+	reader := shared
+	if reader == nil {
+		var err error
+		reader, err = mcap.NewReader(bytes.NewReader(d.bytes))
+		if err != nil {
+			e["ret"], e["why"] = "error", err.Error()
+			return e
+		}
+		defer reader.Close()
 	}
-	defer reader.Close()
 	info, err := reader.Info()
 	if err != nil {
 		e["ret"], e["why"] = "error", err.Error()
@@ -283,6 +338,10 @@ func infoEvent(d *fileDesc) (e wl.Ev) {
 	e["nAttIdx"], e["nMdIdx"] = len(info.AttachmentIndexes), len(info.MetadataIndexes)
 	if info.Statistics != nil {
 		e["hasStats"], e["msgs"] = true, info.Statistics.MessageCount
+	}
+	if shared != nil { // inside a session the records are not fetched: the counts are what is judged
+		e["attOK"], e["mdOK"] = len(info.AttachmentIndexes), len(info.MetadataIndexes)
+		return e
 	}
 	recAt := func(pos uint64) *refmcap.Rec {
 		for _, r := range d.file.Recs {
@@ -412,6 +471,8 @@ func irun(args []string) error {
 	ntm := fs.Int("times", 3, "exh: number of time values")
 	stride := fs.Int("stride", 1, "exh: take every stride-th file (offset seed%stride)")
 	in := fs.String("in", "", "replay spec")
+	sessIn := fs.String("sessions", "", "Reader sessions exported by TLC from ReaderSession.tla (ndjson); a few are run on every file")
+	nsess := fs.Int("nsess", 4, "sessions per file")
 	fs.Parse(args)
 	tf, err := os.Create(*out)
 	if err != nil {
@@ -433,6 +494,35 @@ func irun(args []string) error {
 		id    string
 		bytes []byte
 		specs []readSpec
+		sess  [][]string
+	}
+	var sessions [][]string
+	if *sessIn != "" {
+		b, err := os.ReadFile(*sessIn)
+		if err != nil {
+			return err
+		}
+		for _, line := range bytes.Split(b, []byte("\n")) {
+			if len(bytes.TrimSpace(line)) == 0 {
+				continue
+			}
+			var x struct {
+				Ops []string `json:"ops"`
+			}
+			if err := json.Unmarshal(line, &x); err != nil {
+				return err
+			}
+			sessions = append(sessions, x.Ops)
+		}
+	}
+	nextSess := 0
+	pickSessions := func(k int) [][]string {
+		var out [][]string
+		for i := 0; i < k && len(sessions) > 0; i++ {
+			out = append(out, sessions[nextSess%len(sessions)])
+			nextSess++
+		}
+		return out
 	}
 	emit := func(j job) error {
 		d := describe(j.bytes)
@@ -448,9 +538,15 @@ func irun(args []string) error {
 		for _, e := range parallel(evs) {
 			tr.Add(e)
 		}
+		sr := rand.New(rand.NewSource(int64(len(j.bytes))))
+		for si, ops := range j.sess {
+			for _, e := range sessionEvents(d, ops, sr, si) {
+				tr.Add(e)
+			}
+		}
 		tr.Add(wl.Ev{"ev": "End"})
 		if o.wls != nil {
-			b, _ := json.Marshal(map[string]any{"id": j.id, "file": j.bytes, "specs": j.specs})
+			b, _ := json.Marshal(map[string]any{"id": j.id, "file": j.bytes, "specs": j.specs, "sess": j.sess})
 			o.wls.Write(b)
 			o.wls.WriteByte('\n')
 		}
@@ -467,11 +563,12 @@ func irun(args []string) error {
 			ID    string     `json:"id"`
 			File  []byte     `json:"file"`
 			Specs []readSpec `json:"specs"`
+			Sess  [][]string `json:"sess"`
 		}
 		if err := json.Unmarshal(b, &spec); err != nil {
 			return err
 		}
-		return emit(job{spec.ID, spec.File, spec.Specs})
+		return emit(job{spec.ID, spec.File, spec.Specs, spec.Sess})
 	case "exh":
 		// every file of <= chunks x <= msgs messages, times from ntm values, 2 channels; the time values are
 		// concretised per seed with 0 at the bottom and 2^64-1 at the top when ntm >= 4
@@ -527,7 +624,7 @@ func irun(args []string) error {
 						return err
 					}
 					d := describe(b.Bytes)
-					if err := emit(job{fmt.Sprintf("exh%d-%d", *seed, count), b.Bytes, readSpecs(r, d, *reads, true)}); err != nil {
+					if err := emit(job{fmt.Sprintf("exh%d-%d", *seed, count), b.Bytes, readSpecs(r, d, *reads, true), nil}); err != nil {
 						return err
 					}
 				}
@@ -600,7 +697,7 @@ func irun(args []string) error {
 				return err
 			}
 			d := describe(b.Bytes)
-			if err := emit(job{fmt.Sprintf("%s%d-%d", *mode, *seed, i), b.Bytes, readSpecs(r, d, *reads, true)}); err != nil {
+			if err := emit(job{fmt.Sprintf("%s%d-%d", *mode, *seed, i), b.Bytes, readSpecs(r, d, *reads, true), pickSessions(*nsess)}); err != nil {
 				return err
 			}
 		}
@@ -630,7 +727,7 @@ func irun(args []string) error {
 			for k := range specs {
 				specs[k].MdCb = true
 			}
-			if err := emit(job{w.ID, b, specs}); err != nil {
+			if err := emit(job{w.ID, b, specs, pickSessions(*nsess)}); err != nil {
 				return err
 			}
 		}
